@@ -279,6 +279,9 @@ class GenericElongationGroove(GrooveBase, ReprMixin):
         if (self.flank_angle + self.alpha4 - self.alpha2 - self.alpha3) > 0.01:
             raise ValueError("given angles should fulfill α1 + α4 = α2 + α3 to be geometrically plausible")
 
+        if self.flank_angle > np.pi / 2:
+            raise ValueError("under given conditions the flank is undercut (flank angle above 90°)")
+
         if abs(self.y4 - self._flank_contour_line(self.z4)) > max(0.001 * self.depth, 1e-9 * self.usable_width):
             raise ValueError("under given conditions a step appears in z4")
 
